@@ -4,7 +4,7 @@ import PtnModel.Proofs.DenseSplit
 # Zero-tolerance `split_mps_tensor` followed by `merge_mps_tensor_pair` is the identity, under the kernel contracts
 
 Discharges the reconstruction hypothesis of `MPS.split_merge` from the C12 facts about `split_matrix_svd`
-(`C12.split_tol0_exact`, `C12.split_dims`, `C12.split_rule_positive`, `C12.split_disjoint`).
+(`C12.split_tol0_exact`, `C12.split_dims`, `C12.split_rule_positive`, `C12.split_zero`).
 -/
 namespace Ptn.MPS
 open Finset Dense BondOps Ptn.C12
@@ -62,8 +62,8 @@ theorem split_merge_tol0' (ι : ρ →+* 𝕜) (hι : ∀ x : ρ, (RealLike.ofRe
   · intro hd p hp
     have hmem : σ.getD p 0 = 0 ∨ σ.getD p 0 ∈ spectrum k.dsvd (splitMat A qd0.length qd1.length).tab
         (QN.flatten2 qd0 qD0) (QN.flatten2 (QN.neg qd1) qD2) := by
-      by_cases hne : intersect1d (QN.flatten2 qd0 qD0) (QN.flatten2 (QN.neg qd1) qD2) = []
-      · obtain ⟨u', v', hr', _⟩ := split_disjoint (A := (splitMat A qd0.length qd1.length).tab) k.dnorm k.dargsort 0
+      by_cases hne : ¬ AnyNZ (splitMat A qd0.length qd1.length).tab
+      · obtain ⟨u', v', hr', _⟩ := split_zero (A := (splitMat A qd0.length qd1.length).tab) k.dnorm k.dargsort 0
           ι k.dsvd hq0 hq1 hm' hn' hsp hne
         rw [hr'] at hrun
         simp only [Except.ok.injEq, Prod.mk.injEq] at hrun
@@ -71,7 +71,8 @@ theorem split_merge_tol0' (ι : ρ →+* 𝕜) (hι : ∀ x : ρ, (RealLike.ofRe
         have : p = 0 := by simpa using hp
         subst this
         left; simp
-      · obtain ⟨hs, _⟩ := split_values k.dnorm k.dargsort 0 hc.shape hq0 hq1 hm' hn' hsp hrun hne
+      · obtain ⟨hs, _⟩ := split_values k.dnorm k.dargsort 0 hc.shape hq0 hq1 hm' hn' hsp hrun
+          (Classical.not_not.1 hne)
         have hp' : p < (retainedBondIndices k.dnorm k.dargsort (spectrum k.dsvd
             (splitMat A qd0.length qd1.length).tab (QN.flatten2 qd0 qD0) (QN.flatten2 (QN.neg qd1) qD2)) 0).length := by
           rw [hs] at hp; simpa using hp
